@@ -50,6 +50,7 @@ fn gen_run(rng: &mut Rng, sub: &str, thorough: bool, base: Option<&Params>, via_
             mega_1_in: 0,
             twin_mega_1_in: 0,
             many_1_in: 1500,
+            overflow_top_w: 1,
     };
     let records = g.gen(rng);
     let container = gen_container(rng, &records, false, true);
